@@ -60,7 +60,11 @@ fn main() {
     // panics inside the code under test are data, not output
     simrt::install_panic_hook();
     simrt::warm_up();
+    let tls_syms = simrt::init_tls_mode();
     let args: Vec<String> = std::env::args().collect();
+    if !tls_syms.is_empty() && args.get(1).map(|a| a == "check").unwrap_or(false) {
+        println!("NOTE: the parallel build uses {} thread-local symbol(s) (e.g. {}): simulated schedules are task-granular for this tree (DESIGN.md section 11 item 17)", tls_syms.len(), tls_syms[0].chars().take(80).collect::<String>());
+    }
     if args.len() < 2 {
         usage();
     }
